@@ -10,6 +10,7 @@ R4 size gate (T-cmp 19) and agreement of the size estimate with what finish emit
 R5 offsets: index value = offset before the block's bytes were added; pending_offset starts at
    the initial file offset and grows by exactly the bytes written.
 D  rests on: C16 (the format's integers are these codecs); C17 (the format's checksum is this function) - re-run here as <id>.D.<rule>.
+R7 container contract (rules/vecrule.py): libmy/vector.h keeps its invariants, element preservation, post-conditions and memory safety in every scenario (every emitted byte passes through a ubuf).
 """
 import re
 from .common import *
@@ -298,6 +299,10 @@ def run(ctx, res):
     # ---- properties this one rests on (re-run here, labelled <this>.D.<rule>) ------------------
     depends(ctx, res, 'C16', None, "the format's integers are these codecs")
     depends(ctx, res, 'C17', None, "the format's checksum is this function")
+
+    # ---- container contract ---------------------------------------------------------------------
+    from . import vecrule
+    vecrule.check(ctx, res, "C09.R7")
 
 def _crc_definitely_assigned(ctx, res):
     """C09.R2 (second half): the crc field is read by the block-writing function; on every path by which a block
